@@ -148,6 +148,73 @@ def prog(n, pattern, old_free=None):
     return p
 
 
+def prog_factorize_k(m):
+    """subspacemin.factorize_k (the LEL^T factorization of the indefinite middle matrix K used when pairs are stored):
+    requires K symmetric (2m x 2m), -K[:m,:m] and the Schur complement K22 + K12' K11^-1 K12 positive definite (stated
+    through the pivots: the contract of the two Cholesky calls); ensures LK @ E @ LK' == K entry-wise, LK lower
+    triangular, K untouched.  Real arithmetic, m = 1 (2x2) and m = 2 (4x4)."""
+    def p(run):
+        it, dom = session(run, user_may_raise=False)
+        install(dom)
+        N = 2 * m
+        ent = [[None] * N for _ in range(N)]
+        for i in range(N):
+            for j in range(i, N):
+                ent[i][j] = ent[j][i] = run.fresh(f"K{i}{j}", R)
+        K = run.alloc(ND((N, N), [ent[i][j] for i in range(N) for j in range(N)]), "caller")
+        before = list(run.heap[K.ref].flat)
+        tag = f"subspacemin.factorize_k[m={m}]"
+        # requires (stated on K, independently of the code): A = -K[:m,:m] and the Schur complement
+        # S = K22 + K12' A^-1 K12 (with K12 = -K[:m,m:]) are positive definite (leading principal minors)
+        if m == 1:
+            a, b, c2 = -ent[0][0], -ent[0][1], ent[1][1]
+            run.assume(a > 0)
+            run.assume(c2 * a + b * b > 0)
+        else:
+            A = [[-ent[i][j] for j in range(2)] for i in range(2)]
+            Bm = [[-ent[i][2 + j] for j in range(2)] for i in range(2)]
+            C = [[ent[2 + i][2 + j] for j in range(2)] for i in range(2)]
+            detA = A[0][0] * A[1][1] - A[0][1] * A[1][0]
+            run.assume(A[0][0] > 0)
+            run.assume(detA > 0)
+            adj = [[A[1][1], -A[0][1]], [-A[1][0], A[0][0]]]            # A^-1 = adj / detA
+            # detA * S = detA * C + B' adj B
+            S = [[detA * C[i][j] + sum(Bm[k][i] * adj[k][l] * Bm[l][j] for k in range(2) for l in range(2))
+                  for j in range(2)] for i in range(2)]
+            run.assume(S[0][0] > 0)
+            run.assume(S[0][0] * S[1][1] - S[0][1] * S[1][0] > 0)
+        cover(run, f"FACTORIZE_K[m={m}]::requires_satisfiable")
+        try:
+            LK = it.call(it.lookup("subspacemin.factorize_k"), [K], {"is_assert_correct": False})
+        except PyExc as pe:
+            # LinAlgError of a Cholesky call <=> a pivot is not positive: outside the precondition
+            run.oblige(tag + "::raises::only_LinAlgError_on_indefinite_blocks", pe.exc.cls == "LinAlgError", ("C09",),
+                       backend="structural", info=repr(pe.exc))
+            return
+        c = run.heap[LK.ref]
+        ok_shape = isinstance(c, ND) and tuple(c.shape) == (N, N)
+        run.oblige(tag + "::ensures::shape", ok_shape, ("C09", "C12"), backend="structural")
+        if not ok_shape:
+            return
+        L = [[zreal(c.flat[i * N + j]) for j in range(N)] for i in range(N)]
+        sign = [-1] * m + [1] * m
+        eqs = []
+        for i in range(N):
+            for j in range(N):
+                eqs.append(sum((L[i][k] * sign[k] * L[j][k] for k in range(N)), z3.RealVal(0)) == ent[i][j])
+        run.oblige(tag + "::ensures::LK_E_LKt_equals_K", z3.And(*eqs), ("C09", "C12", "C01"))
+        run.oblige(tag + "::ensures::lower_triangular",
+                   z3.And(*[L[i][j] == 0 for i in range(N) for j in range(i + 1, N)]), ("C09", "C12"))
+        run.oblige(tag + "::frame::K_untouched",
+                   all(a is b or (z3.is_expr(a) and z3.is_expr(b) and z3.eq(a, b)) for a, b in
+                       zip(run.heap[K.ref].flat, before)), ("C09", "C14"), backend="frame")
+    return p
+
+
+def _work_fk(m):
+    return run_program(f"SUBSPACE[factorize_k,m={m}]", prog_factorize_k(m), mode="real", keep_smt=0, timeout_ms=60000)
+
+
 def _work(args):
     n, pat, keep, old = args
     return run_program(f"SUBSPACE[n={n},{pat},old_free={old}]", prog(n, pat, old), mode="real", keep_smt=keep,
@@ -168,9 +235,13 @@ def run_unit(tier="quick", procs=16):
         olds = [tuple(c) for k in range(n + 1) for c in itertools.combinations(range(n), k)]
         for old in (olds if n <= 2 else olds[:4]):
             jobs.append((n, tuple([(True, True)] * n), 0, old))
+    rep.functions |= {"subspacemin.factorize_k"}
     with mp.Pool(min(procs, len(jobs))) as pool:
+        fk = [pool.apply_async(_work_fk, (m,)) for m in ((1, 2) if tier == "quick" else (1, 2))]
         for r in pool.imap_unordered(_work, jobs):
             rep.merge(r)
+        for a in fk:
+            rep.merge(a.get())
     return rep
 
 
